@@ -30,9 +30,9 @@ Definition chan_of (i : instr) : option chan :=
   match i with
   | IPoll | ISelect _ _ _ | ISelWait _ _ _ | IAccept | ITrigClose | ILstClose => None
   | IDisp _ f | IDisp2 f _ _ _ _ | IRwClose f | KWasyn f | KReadwrite f => fd_chan f
-  | ISetOpts c | IInitGso c | IInitSbl c | IAddChan c | IRecv c | ISetConnF c | IRcvChk c _ | IRcvLoop c _
+  | ISetOpts c | IInitGso c | IInitSbl c | IAddChan c | IRecv c | IRecvCall c | IExptCall c | ISockCloseCall c | ISetConnF c | IRcvChk c _ | IRcvLoop c _
   | IRcvPost c _ _ | IHwChoose c | IHwNotify c | IHwTail c | IExpt c | IContPre c | IContAppend c
-  | IFlushStart c _ | IFlush c _ | IFlushSend c _ _ | IHClose c | ICloseBufs c | INotifyO c | IDClose1 c
+  | IFlushStart c _ | IFlush c _ _ | IFlushSend c _ _ _ | IHClose c | ICloseBufs c | INotifyO c | IDClose1 c
   | IDelMapTest c | IDelMapDo c | IFilenoNone c | IDelAct c _ | ISockClose c | ISockNone c
   | IAcqO c | ITryAcqO c | IRelO c | IWaitO c | IWake c _ | IAcqR c | IRelR c
   | ISvcStart c | IApp c | IErrTask c | IWsChk1 c | IFbh c | IFbhAfter c | IFbhLoop c | IWsChk2 c
